@@ -18,6 +18,7 @@
 import DateutilVerif.Proofs.ZonesBuild
 import DateutilVerif.Proofs.RangeZone
 import DateutilVerif.Proofs.GenericICal
+import DateutilVerif.Proofs.LocalZone
 
 namespace C04
 open TZ Spec
@@ -190,6 +191,34 @@ theorem roundtrip_tzical_cycle (S D : List Int) (stdOff dstOff on off nextOn t :
     (g.fromutc t).1 = (if t + stdOff < off then t + dstOff else t + stdOff) :=
   ICal.roundtrip_two_comp S D stdOff dstOff on off nextOn t hsav h1 h2 H1 H2 H3 hx1 hx2
 
+/-- **roundtrip_tzlocal.** `tzlocal` at the model level (`localZone z`: `time.localtime().tm_isdst`
+    follows the yearly rule table `z`; glibc itself is assumed): on a wall window where the naive
+    decision is "`w < off`" (`local_naive_north`: inside one rule year with `on < off`;
+    `local_naive_south`: from this year's `on` across New Year to next year's `off`), `fromutc`
+    round-trips with tzlocal's own `is_ambiguous`, and fold=1 marks the second pass. -/
+theorem roundtrip_tzlocal (z : RangeZone) (off lo hi t : Int) (hd : z.hasdst = true) (hs : 0 < z.saving)
+    (hN : ∀ w, lo - z.saving ≤ w → w < hi → localNaiveIsdst z w = decide (w < off))
+    (hx1 : lo ≤ t + z.stdOff) (hx2 : t + z.stdOff + z.saving < hi) :
+    (localZone z).utcoffset ((localZone z).fromutc t) = ((localZone z).fromutc t).wall - t ∧
+    (localZone z).toUtc ((localZone z).fromutc t) = t ∧
+    ((localZone z).fromutc t).wall = (if t + z.stdOff < off then t + z.stdOff + z.saving else t + z.stdOff) ∧
+    ((localZone z).fromutc t).fold = (decide (off ≤ t + z.stdOff) && decide (t + z.stdOff < off + z.saving)) :=
+  roundtrip_local z off lo hi t hd hs hN hx1 hx2
+
+/-- the window hypothesis of `roundtrip_tzlocal` inside one northern rule year … -/
+theorem tzlocal_window_north (z : RangeZone) (on off lo hi : Int) (h : on < off) (hlo : on ≤ lo - z.saving)
+    (htr : ∀ w, lo - z.saving ≤ w → w < hi → z.transitions (yearOf w) = some (on, off)) :
+    ∀ w, lo - z.saving ≤ w → w < hi → localNaiveIsdst z w = decide (w < off) :=
+  local_naive_north z on off lo hi h hlo htr
+
+/-- … and across New Year in the southern order -/
+theorem tzlocal_window_south (z : RangeZone) (on off₀ on' off ny lo hi : Int)
+    (h0 : off₀ ≤ on) (h1' : off ≤ on') (hlo : on ≤ lo - z.saving) (hhi : hi ≤ on') (hny : ny ≤ off)
+    (htr0 : ∀ w, lo - z.saving ≤ w → w < ny → z.transitions (yearOf w) = some (on, off₀))
+    (htr1 : ∀ w, ny ≤ w → w < hi → z.transitions (yearOf w) = some (on', off)) :
+    ∀ w, lo - z.saving ≤ w → w < hi → localNaiveIsdst z w = decide (w < off) :=
+  local_naive_south z on off₀ on' off ny lo hi h0 h1' hlo hhi hny htr0 htr1
+
 /-! non-vacuity -/
 def exR : Raw := { trans := [(1000000, 1), (2000000, 0), (3000000, 1)],
                    types := [⟨0, 0, [65], false, false, 0⟩, ⟨3600, 1, [66], false, false, 0⟩] }
@@ -210,5 +239,9 @@ example : yearOf 1604210000 = 2020 ∧ estZone.transitions (yearOf 1604210000) =
 def negZone : RangeZone := RangeZone.ofTable 3600 0 true [(2020, 1603591200, 1585447200)]
 example : negZone.fromutc 1603587600 = .ok ⟨1603587600, false⟩ ∧
     negZone.utcoffset ⟨1603587600, false⟩ = .ok 3600 := by decide
+
+/-- tzlocal under EST5EDT in 2020: the second 01:30 of 2020-11-01 (06:30Z) gets fold=1 -/
+example : (localZone estZone).fromutc 1604212200 = ⟨1604212200 - 18000, true⟩ ∧
+    (localZone estZone).fromutc 1604208600 = ⟨1604208600 - 14400, false⟩ := by decide
 
 end C04
